@@ -230,8 +230,8 @@ def judge(prop, unit, inp):
                 return False, det
             nominal = 18 + (16000 if len(data) > 1 and data[1] == 3 else 32000)
             if data[:1] != b"\x80" and len(data) != nominal:
-                det["note"] = "recorded known finding KF-C19-VEF-image-data-of-the-wrong-length"
-                return False, det
+                det["mismatch"] = "success reported for %d bytes of pixel data where the type byte dictates %d" % (len(data) - 18, nominal - 18)
+                return True, det
             if png["samples"] != png["width"] * png["height"]:
                 det["mismatch"] = "PNG announces %dx%d but holds %d samples" % (png["width"], png["height"], png["samples"])
                 return data[:1] != b"\x80", det      # squashed files with short records: recorded finding
@@ -358,17 +358,6 @@ def known_case(tool, data, opts, ref):
             w, h, hs = dm
             if w % 8:
                 return "KF-C18-MAX-width-not-multiple-of-8"
-            if len(data) - (opts.get("skip") or 0) - hs < (w // 8) * h:
-                return "KF-C19-MAX-short-rows"
-    if tool == "pixtopgm":
-        side = ref.isqrt(2 * len(data))
-        if side * side != 2 * len(data):
-            return "KF-C19-PIX-non-square-size"
-    if tool == "mgetoppm" and len(data) > 18 and data[18] == 0 and ref.ref_mge(data) is None:
-        return "KF-C19-MGE-early-terminator / KF-C19-MGE-tokens-after-full"
-    if tool == "rattoppm":
-        if ref.ref_rat(data) is None:
-            return "KF-C19-RAT-run-overshoot (or not a valid encoding)"
     return None
 
 
@@ -460,6 +449,30 @@ def run(prop, tier, rep):
             rep.undecided.append(oid)
     for fid, where in sorted(present.items()):
         rep.known_finding(fid, where)
+    if tier == "thorough" and not rep.errors:
+        # bounded stand-ins next to the proofs (never counted as discharged): generated files through the real decoder vs
+        # the executable specification; witnesses of the recorded findings (open ones reproduce, repaired ones stay repaired)
+        from vcheck import differential, findings_witness
+        try:
+            ncases, nbad = differential.run(prop, rep, rep.seed, scale=2)
+            rep.extra["differential"] = dict(files=ncases, mismatches=nbad)
+        except Exception as e:  # noqa
+            rep.errors.append("differential stand-in could not run: %s: %s" % (type(e).__name__, str(e)[:300]))
+        try:
+            res = findings_witness.check_all(verbose=False)
+            mine = {k: v for k, v in res.items() if findings_witness.witnesses()[k][0] == prop}
+            for fid, (fails, why, outcome) in sorted(mine.items()):
+                fixed = fid in findings_witness.FIXED
+                rep.bounded.append(dict(check="%s/witness/%s" % (prop, fid), bound="one concrete witness file of a %s finding" % ("repaired" if fixed else "recorded"),
+                                        held=(not fails) if fixed else True, reproduces=bool(fails)))
+                if fixed and fails:
+                    tool, data = findings_witness.witnesses()[fid][1:3]
+                    rep.violation("%s/witness/%s" % (prop, fid), dict(detail="the repaired defect is back: " + why, replay=dict(
+                        tool=tool, input_b64=base64.b64encode(data).decode(), opts=findings_witness.witnesses()[fid][3])), True)
+                elif not fixed and not fails:
+                    rep.extra.setdefault("findings_not_reproduced", []).append(fid)
+        except Exception as e:  # noqa
+            rep.errors.append("finding witnesses could not run: %s: %s" % (type(e).__name__, str(e)[:300]))
     rep.trusted_base += TRUSTED
     rep.extra["paths"] = len(results)
     rep.extra["contracts"] = [dict(function=u["name"], tag=u["tag"],
